@@ -3,7 +3,7 @@ from facts import walk, callee_of, call_args, loc
 import hirq, anchors, absx, sem, driver
 
 EXPLANATION = ("K1 pairing: every removal of a routing entry in the driver loop (result delivered, search done / receiver gone, scrub, "
-               "abandon) is accompanied on the same control path by the release of the same message ID from the in-use set; K2 the "
+               "abandon) is followed, on every enumerated path of its arm and before the arm is left by any exit (falling out, continue, break, return), by the release of the same message ID from the in-use set - unless the same sender is put back; K2 the "
                "Abandon request's own, never-answered ID is released in its arm; K3 Abandon: request [APPLICATION 16] INTEGER msgid and "
                "LdapOp::Abandon(msgid) carry the same parameter, and the arm drops both routing entries of that ID (which fails the "
                "waiting caller); K4 every routing map has a removal site for each terminal event class (response, scrub, abandon); "
